@@ -4,6 +4,7 @@ from .ty import sort, INT, fresh
 from .engine import LEMMAS, Oblig
 
 REGISTRY = {}
+CALLED = set()     # names of the lemmas instantiated since the last reset (dependency tracking: see deps())
 
 
 def lemma(name, params, stmt, ind=None, gen=(), pre=None, hints=None):
@@ -13,6 +14,7 @@ def lemma(name, params, stmt, ind=None, gen=(), pre=None, hints=None):
     names = [p for p, _ in params]
 
     def inst(*args):
+        CALLED.add(name)
         guard = []
         if ind is not None:
             guard.append(args[names.index(ind)] >= 0)
@@ -56,3 +58,10 @@ def obligations(name):
     hs = [i >= 0, ih] + ([pre(*step)] if pre is not None else []) + (hints(*step) if hints else [])
     out.append(Oblig(f'lemma-step:{name}', hs, stmt(*step), 'lemma:' + name, 0, 'lemma'))
     return out
+
+
+def deps(name):
+    """the lemmas whose instances the proof obligations of `name` use as hypotheses (its hints)"""
+    CALLED.clear()
+    obligations(name)
+    return sorted(CALLED - {name})
